@@ -67,6 +67,10 @@ def check(ctx):
     # a byte order mark in front of the top file / an included file: file and string entry points see the same bytes
     srcs.append(("pp", {"top.sv": "\ufeffa b\n`include \"b.svh\"\nc\n", "b.svh": "\ufeffq // d\n"}))
     srcs.append(("sv", "\ufeffmodule m; endmodule\n"))
+    # the top file in a directory of its own, an included file next to it and / or in an include path: both entry points
+    # search the same places (the directory of the top file is not one of them)
+    srcs.append(("pp", {"sub/top.sv": "a\n`include \"sib.svh\"\nz\n", "sub/sib.svh": "`define WIDTH 8\nsib\n"}))
+    srcs.append(("pp", {"sub/top.sv": "a\n`include \"sib.svh\"\nz `WIDTH\n", "sub/sib.svh": "`define WIDTH 8\n", "lib/sib.svh": "`define WIDTH 16\n"}))
     # include chains around the recursion limit: the file and the string entry points stop at the same level
     for depth in ((64, 65) if q else (1, 15, 63, 64, 65, 66)):
         fs = {"top.sv": "// top\nt0\n`include \"c1.svh\"\n"}
@@ -81,10 +85,12 @@ def check(ctx):
             if k != "pp" and sc:
                 continue
             c = Case("e%d" % n); n += 1
+            toppath = "top.sv"
             if k == "pp":
                 for p, tx in t.items():
                     c.add("file", hx(p), hx(tx))
-                top = t["top.sv"]
+                toppath = "sub/top.sv" if "sub/top.sv" in t else "top.sv"
+                top = t[toppath]
             else:
                 c.add("file", hx("top.sv"), hx(t))
                 c.add("file", hx("inc.svh"), hx("wire inc_w; // ic\n" if k == "sv" else "library inc c;\n"))
@@ -93,8 +99,10 @@ def check(ctx):
             c.add("opt", "ignore", ig).add("opt", "incomplete", ai).add("opt", "strip", sc)
             c.add("want", "tree", "defines", "deforg", "text", "origins")
             if k == "pp":
-                c.add("run", "preprocess", hx("top.sv"))
-                c.add("run", "preprocess_str", hx(top), hx("top.sv"), 0, 0)
+                if "sub/top.sv" in t:
+                    c.add("incdir", hx("lib"))
+                c.add("run", "preprocess", hx(toppath))
+                c.add("run", "preprocess_str", hx(top), hx(toppath), 0, 0)
                 groups = [(0, 1)]
             else:
                 c.add("run", "parse_%s" % k, hx("top.sv"))
